@@ -258,7 +258,11 @@ func (r *revisionSyncer) getRevisionFromLeader() (uint64, error) {
 	}
 
 	revision := &LeaderRevision{}
-	json.Unmarshal(responseBody, revision)
+	if err := json.Unmarshal(responseBody, revision); err != nil {
+		// whatever answered, it was not the leader telling its revision
+		r.metricCli.EmitCounter("follower.get.revision.failed", 1, metrics.Tag("leader", leaderAddress))
+		return 0, fmt.Errorf("invalid revision response from leader %s: %v", leaderAddress, err)
+	}
 	r.metricCli.EmitGauge("follower.get.revision", revision.Revision, metrics.Tag("leader", leaderAddress))
 	return revision.Revision, nil
 }
